@@ -13,6 +13,7 @@ UNITS = {
     ghost_sig=[('Node *', 'gK'), ('Node *', 'gW')],
     exc_edges=True,
     field_hooks={'Node.counter': 'NODE_SET_counter'},
+    read_hooks={'Node.counter': 'NODE_GET_counter'},
     split_loops={'CL_doForEachIf__forEachIf__UserEachIf__lambda0': [0], 'CL_doForEachIf__forEach__UserEach__lambda0': [0],
                  'CL_doForEachIf__forEachIf__call__lambda0__lambda0': [0], 'CL_ownsHandle': [0], 'CL_doFreeAllNodes': [0],
                  'CL_getNextCounter': [0], 'CL_cloneFrom': [0]},
